@@ -362,6 +362,12 @@ pub struct LinkCongestionState {
     /// Ticks the `loss_uncongestive` verdict has been held, against
     /// `LOSS_UNCONGESTIVE_RETEST_TICKS`.
     uncongestive_ticks: u32,
+    /// Set once the target has been seeded from observed throughput on the
+    /// first non-bootstrap tick. Keyed on a flag rather than on
+    /// `target_bps == MIN_TARGET_BPS`: a target that back-off / drain later
+    /// drives down to the floor must climb back at the bounded AI rate, not be
+    /// re-seeded to >= `INITIAL_TARGET_BPS` (a 10x or larger jump) on the next tick.
+    seeded: bool,
 }
 
 impl Default for LinkCongestionState {
@@ -390,6 +396,7 @@ impl Default for LinkCongestionState {
             backoff_entry_loss_pm: 0,
             loss_uncongestive: false,
             uncongestive_ticks: 0,
+            seeded: false,
         }
     }
 }
@@ -618,9 +625,10 @@ impl LinkCongestionState {
 
         // First non-bootstrap tick: seed the target from observed throughput
         // (or a conservative floor if no traffic yet).
-        if self.target_bps == MIN_TARGET_BPS {
+        if !self.seeded {
             let seed = sane_observed.max(INITIAL_TARGET_BPS);
             self.target_bps = seed.clamp(MIN_TARGET_BPS, MAX_TARGET_BPS);
+            self.seeded = true;
         }
 
         // Is this loss ours? Two independent things have to hold.
